@@ -358,6 +358,8 @@ def gen_spec(seed_parts, cls="plain"):
         opts["p_other_strategy"] = 0.6
         kinds["max"] = 7
         opts["p_ordered_alternatives"] = 0.3
+        # task-graph shaped sharing (LessThan(task, Min(parallel children))) is what the purge pass reasons about
+        opts["share"] = 0.55
     else:
         opts["p_ordered_alternatives"] = 0.12  # the same directed shape without the passes: the ordering row alone must hold
     b = _B(rng, spec, opts)
